@@ -263,8 +263,8 @@ def check_case(case):
     want = reference(case, names, vals, consts)
     pts = list(itertools.product(*vals))
     want_calls = sorted(xfn.enc(dict(zip(names, p), **consts)) for p in pts)
-    kw = dict(constants=consts or None, split=case["split"], flat=case["flat"],
-              verbosity=0)
+    kw = dict(constants=dict(consts) if consts else None,
+              split=case["split"], flat=case["flat"], verbosity=0)
     st = case["strat"]
     if st == "shuffle":
         kw["shuffle"] = case["seed"]
